@@ -19,11 +19,12 @@ for d in sorted(glob.glob(os.path.join(HERE, "seeded", "C*"))):
     r = res.get(name, {})
     caught = sorted(k for k, v in r.items() if v == "CAUGHT")
     missed = sorted(k for k, v in r.items() if v == "missed")
-    rows.append((name, m["property"], m["title"].replace("|", "\\|"), m.get("needs", "").replace("|", "\\|").replace("\n", " "), caught, missed, r.get("_valid")))
+    rows.append((name, m["property"], m["title"].replace("|", "\\|"), m.get("needs", "").replace("|", "\\|").replace("\n", " "), caught, missed, r.get("_valid"), m.get("outside_domain")))
 lines = ["| seed | breaks | change | caught by (quick tier) |", "|---|---|---|---|"]
-for name, prop, title, needs, caught, missed, valid in rows:
+for name, prop, title, needs, caught, missed, valid, outside in rows:
     t = title if len(title) < 150 else title[:147] + "..."
-    lines.append("| %s | %s | %s | %s%s |" % (name, prop, t, ", ".join(caught) or "-", (" (not by: " + ", ".join(missed) + ")") if missed else ""))
+    lines.append("| %s | %s | %s | %s%s%s |" % (name, prop, t, ", ".join(caught) or "-", (" (not by: " + ", ".join(missed) + ")") if missed else "",
+                                              (" - deliberately not chased, trigger outside the property's domain: " + outside.replace("|", "\\|")) if outside else ""))
 table = "\n".join(lines)
 with open(os.path.join(HERE, "seeded", "README.md"), "w", encoding="utf8") as f:
     f.write("# Seeded defects\n\nWritten by independent sub-agents that saw only the text of one property and a scratch worktree of /repo (nothing from /verif).\n"
@@ -37,4 +38,5 @@ if "<!-- SEEDED-TABLE -->" in s:
     s = re.sub(r"<!-- SEEDED-TABLE -->.*<!-- /SEEDED-TABLE -->", lambda m: "<!-- SEEDED-TABLE -->\n" + table + "\n<!-- /SEEDED-TABLE -->", s, flags=re.S)
     open(p, "w", encoding="utf8").write(s)
 n_c = sum(1 for r in rows if r[4])
-print("%d seeds, %d caught by at least one check, %d valid" % (len(rows), n_c, sum(1 for r in rows if r[6])))
+print("%d seeds, %d caught by at least one check, %d valid, %d outside the domain: %s; uncaught inside the domain: %s" % (
+    len(rows), n_c, sum(1 for r in rows if r[6]), sum(1 for r in rows if r[7]), [r[0] for r in rows if r[7]], [r[0] for r in rows if not r[4] and not r[7]]))
